@@ -89,6 +89,11 @@ def generate(rnd, tier):
             g = gen.acyclic_grammar(rnd, max_nts=5, alphabet=["a", "b", "(", "ab", "c", ")"])
     else:
         g = gen.acyclic_grammar(rnd, max_nts=5, alphabet=["a", "b", "(", "ab", "c", ")"])
+    if chance(rnd, 0.15):
+        # <start> used recursively on a right-hand side (between terminals, so no unit cycle arises)
+        k = pick(rnd, [x for x in g if x != "<start>"])
+        g = dict(g)
+        g[k] = list(g[k]) + [pick(rnd, ["(<start>)", "a<start>", "<start>b", "(<start>", "a<start>b<start>"])]
     cg = rt.canon(g)
     md = rt.min_depths(cg)
     nts = list(g.keys())
